@@ -39,7 +39,16 @@ def _run(ev: Evaluator, fi: FuncInfo, args, kwargs=None):
 
 def sym_face(repo: Repo, name: str = "face", line_cls=None) -> Obj:
     face = Obj(name, cls=repo.cls("construct.flat.face.Face"))
-    face.set("points", [Sym(f"{name}.p{i}") for i in range(4)])
+    # corner points: objects of class Point that carry their own position and projections - what belongs to a corner must move
+    # with it when the face is re-indexed
+    pcls = repo.cls("construct.point.Point")
+    pts = []
+    for i in range(4):
+        pt = Obj(f"{name}.p{i}", cls=pcls)
+        pt.set("position", Sym(f"{name}.x{i}"))
+        pt.set("projected_to", [f"surface-of-{name}.p{i}"])
+        pts.append(pt)
+    face.set("points", pts)
     # edge-data records: objects of class Line (or the class asked for), so that methods the repository calls on them
     # (EdgeData.reverse() from Face.invert, ...) are dispatched through the repository's own MRO
     ecls = line_cls if line_cls is not None else repo.cls("construct.edges.Line")
@@ -131,16 +140,38 @@ def face_permutations(repo: Repo) -> RuleRun:
     invert = repo.func("construct.flat.face.Face.invert")
     reorient = repo.func("construct.flat.face.Face.reorient")
 
+    def arr_hook(ev, call: ast.Call, name):
+        if name in ("np.array", "np.asarray", "numpy.array", "numpy.asarray") and call.args:
+            return ev.eval(call.args[0])
+        return NO_MATCH
+
+    def corner_sig(p):
+        """what belongs to one corner: where it is and what it is projected to"""
+        if isinstance(p, Obj) and p.has("position"):
+            return (repr(p.get("position")), tuple(p.get("projected_to")) if p.has("projected_to") else ())
+        return (repr(p), ())
+
     for c in range(-4, 5):
         face = sym_face(repo)
         p0, e0 = list(face.get("points")), list(face.get("edges"))
-        ev = Evaluator(repo=repo, module=shift.module)
+        sig0 = [corner_sig(p) for p in p0]
+        ev = Evaluator(repo=repo, module=shift.module, call_hook=arr_hook)
         _run(ev, shift, [face, c])
         p1, e1 = face.get("points"), face.get("edges")
-        err = _edge_ends_ok(p0, e0, p1, e1)
-        if err is None and _cyclic_sense(p0, p1) != 1:
-            err = f"shift({c}) is not a cyclic rotation: {p1}"
-        r.check(err is None, shift, f"shift({c}) -> {p1}", f"Face.shift({c}): {err}", shift.node, key=f"shift({c})")
+        sig1 = [corner_sig(p) for p in p1]
+        err = None
+        if sorted(sig1) != sorted(sig0):
+            err = f"the corners' positions and projections no longer belong together: {sig1} (before: {sig0}) - a projection declared on one corner now sits on another"
+        elif _cyclic_sense(sig0, sig1) != 1:
+            err = f"shift({c}) is not a cyclic rotation: {sig1}"
+        else:
+            # edges: slot j of the result must hold the edge that originally ran between the corners now at j and j+1
+            for j, e in enumerate(e1):
+                i = e0.index(e) if e in e0 else None
+                if i is None or {sig0[i], sig0[(i + 1) % 4]} != {sig1[j], sig1[(j + 1) % 4]}:
+                    err = f"edge {e} does not connect its original corners any more (slot {j})"
+                    break
+        r.check(err is None, shift, f"shift({c}) -> {[x[0] for x in sig1]}", f"Face.shift({c}): {err}", shift.node, key=f"shift({c})")
 
     face = sym_face(repo)
     p0, e0 = list(face.get("points")), list(face.get("edges"))
@@ -604,4 +635,39 @@ def corner_patches(repo: Repo) -> RuleRun:
 
 corner_patches.rule_id = "C10.CORNER-PATCHES"
 
-RULES = [face_permutations, edge_map_rule, side_addressing, select_polarity, arguments_untouched, written_sides, no_class_state, affine_kinds, no_shared_parts, corner_patches]
+def beam_list(repo: Repo, prop: str = PROP, rule: str = "C10.BEAM-LIST") -> RuleRun:
+    """'projecting / curving an edge affects that edge': Frame.get_all_beams reports every corner pair that holds a payload, once -
+    also when several pairs hold the SAME object (Face(points, [Project('terrain')] * 4) from the Face docstring, one Angle
+    handed to four add_side_edge calls)."""
+    from .. import hexa
+
+    r = RuleRun(prop, rule, floor=3, what="Frame.get_all_beams lists every occupied corner pair exactly once, whether the payloads are distinct objects or one object stored under several pairs")
+    frame_cls = repo.cls("util.frame.Frame")
+    gab = repo.func("util.frame.Frame.get_all_beams")
+    edges = [(a, b) for a in range(8) for b in range(a + 1, 8) if hexa.is_edge(a, b)]
+    for label, occupied, shared in (
+        ("four bottom edges, distinct payloads", [(0, 1), (1, 2), (2, 3), (0, 3)], False),
+        ("four bottom edges, ONE payload object", [(0, 1), (1, 2), (2, 3), (0, 3)], True),
+        ("four side edges, ONE payload object", [(0, 4), (1, 5), (2, 6), (3, 7)], True),
+        ("all twelve edges, ONE payload object", edges, True),
+    ):
+        fr = Obj("frame", cls=frame_cls)
+        beams = [{} for _ in range(8)]
+        for a, b in edges:
+            beams[a][b] = None
+            beams[b][a] = None
+        one = Obj("payload")
+        for a, b in occupied:
+            pl_ = one if shared else Obj(f"payload{a}{b}")
+            beams[a][b] = pl_
+            beams[b][a] = pl_
+        fr.set("beams", beams)
+        out = _run(Evaluator(repo=repo, module=gab.module), gab, [fr])
+        got = sorted(tuple(sorted((t[0], t[1]))) for t in out) if isinstance(out, list) else None
+        r.check(got == sorted(tuple(sorted(p)) for p in occupied), gab, f"{label}: {len(occupied)} pairs listed", f"Frame.get_all_beams, {label}: lists the pairs {got}; occupied are {sorted(occupied)} - an edge whose data object is also used on another edge is not written at all", gab.node, key=f"beams:{label}")
+    return r
+
+
+beam_list.rule_id = "C10.BEAM-LIST"
+
+RULES = [face_permutations, edge_map_rule, side_addressing, select_polarity, arguments_untouched, written_sides, no_class_state, affine_kinds, no_shared_parts, corner_patches, beam_list]
